@@ -49,6 +49,7 @@ impl passkey_authenticator::UserValidationMethod for SharedUv {
     type PasskeyItem = Passkey;
     async fn check_user<'a>(&self, credential: Option<&'a Passkey>, presence: bool, verification: bool) -> Result<passkey_authenticator::UserCheck, passkey_types::ctap2::Ctap2Error> {
         if self.yields { yield_once().await; }
+        detail(|| format!("uv cred={:?} up={} uv={}", credential.map(|c| (detail_id(&c.credential_id), c.rp_id.clone(), c.user_handle.clone(), c.counter)), presence, verification));
         push(&self.log, format!("uv:{}:{}:{}", credential.map(|c| hexs(&c.credential_id)).unwrap_or("N".into()), presence as u8, verification as u8));
         match self.st.lock().unwrap().answer {
             Ok((p, v)) => Ok(passkey_authenticator::UserCheck { presence: p, verification: v }),
@@ -208,7 +209,10 @@ impl MakeOp {
         make_credential::Request {
             client_data_hash: self.cdh.clone().into(),
             rp: make_credential::PublicKeyCredentialRpEntity { id: self.rp.clone(), name: Some("rp".into()) },
-            user: webauthn::PublicKeyCredentialUserEntity { id: self.user.clone().into(), display_name: "d".into(), name: "n".into() },
+            // account names of ordinary and of unusual length (beyond 64 bytes, multi-byte characters), derived from the user id
+            user: webauthn::PublicKeyCredentialUserEntity { id: self.user.clone().into(),
+                display_name: if self.user.len() % 3 == 0 { "d".into() } else { format!("D\u{e9}{}", "\u{20ac}".repeat(20 + self.user.len())) },
+                name: if self.user.len() % 3 == 1 { "n".into() } else { format!("account-{}-{}@example.com", hexf(&self.user), "x".repeat(50)) } },
             pub_key_cred_params: self.algs.iter().map(|a| PublicKeyCredentialParameters { ty: PublicKeyCredentialType::PublicKey, alg: alg_of(*a) }).collect(),
             exclude_list: descs(&self.exclude, &self.unk),
             extensions: self.ext.as_ref().map(|(hs, mc, prf)| make_credential::ExtensionInputs { hmac_secret: *hs, hmac_secret_mc: if *mc { ctx_hmac_input.clone() } else { None }, prf: prf.as_ref().map(prfi_real) }),
@@ -314,6 +318,10 @@ fn run_generic<S: Inner + 'static>(ctx: &mut Ctx, prop: &str, w: &World, inner: 
                     let (s1, s2) = match &p.extensions.hmac_secret { Some(h) => (hexf(&h.cred_with_uv), opt_hex(h.cred_without_uv.as_deref())), None => ("N".into(), "N".into()) };
                     format!("{}:{}:{}:{}:{}:{}", hexf(&p.credential_id), hexf(&d), hexf(&x), hexf(&y), s1, s2)
                 }).unwrap_or("N".into());
+                detail(|| match &res { None => "make panic".to_string(), Some(None) => "make cancelled".to_string(), Some(Some(Err(e))) => format!("make err {:?}", e),
+                    Some(Some(Ok(resp))) => format!("make ok flags={:?} ctr={:?} aaguid={:?} id_len={:?} ext={:?} fmt={:?} unsigned={}", resp.auth_data.flags, resp.auth_data.counter,
+                        resp.auth_data.attested_credential_data.as_ref().map(|a| a.aaguid.clone()), resp.auth_data.attested_credential_data.as_ref().map(|a| a.credential_id().len()),
+                        resp.auth_data.extensions.is_some(), resp.fmt, resp.unsigned_extension_outputs.is_some()) });
                 let r = match res { None => "panic".to_string(), Some(None) => "cancelled".to_string(),
                     Some(Some(Ok(resp))) => format!("ok:{}:{}", hexf(&resp.auth_data.to_vec()), prf_make_s(&resp.unsigned_extension_outputs)),
                     Some(Some(Err(e))) => format!("err:{}", sc(e)) };
@@ -345,6 +353,9 @@ fn run_generic<S: Inner + 'static>(ctx: &mut Ctx, prop: &str, w: &World, inner: 
                         Some(k) => { let mut fut = Box::pin(auth.get_assertion(req)); poll_n(fut.as_mut(), k) }
                     }
                 });
+                detail(|| match &res { None => "get panic".to_string(), Some(None) => "get cancelled".to_string(), Some(Some(Err(e))) => format!("get err {:?}", e),
+                    Some(Some(Ok(resp))) => format!("get ok cred={:?} flags={:?} ctr={:?} user={:?} n={:?} unsigned={}", resp.credential.as_ref().map(|c| (c.ty, detail_id(&c.id), c.transports.clone())),
+                        resp.auth_data.flags, resp.auth_data.counter, resp.user.as_ref().map(|u| (u.id.clone(), u.name.clone(), u.display_name.clone())), resp.number_of_credentials, resp.unsigned_extension_outputs.is_some()) });
                 let r = match res { None => "panic".to_string(), Some(None) => "cancelled".to_string(),
                     Some(Some(Ok(resp))) => format!("ok:{}:{}:{}:{}:{}", resp.credential.as_ref().map(|c| hexf(&c.id)).unwrap_or("N".into()), hexf(&resp.auth_data.to_vec()),
                         resp.user.as_ref().map(|u| hexf(&u.id)).unwrap_or("N".into()), prf_get_s(&resp.unsigned_extension_outputs), hexf(&resp.signature)),
